@@ -5,11 +5,11 @@ ID = "C19"
 NO_COVERAGE = True      # the cases live inside a stand-alone differential script (tools/difftest_*.py), not in this module
 LEAN_MODULES = ["LhasaV.Props.C19"]
 VH_FEATURES = []
-THEOREMS = {"listing_of_archive": "full, on bytes: walking archiveWith pk es yields exactly the headers of es; the listing is head + one row group per SELECTED entry + totals of the selected entries, every mode/quiet/clock",
+THEOREMS = {"os_names_match_source": "full (translator tie): os_type_to_string evaluated for all 256 identifier bytes = the listing model's OS-name column", "listing_of_archive": "full, on bytes: walking archiveWith pk es yields exactly the headers of es; the listing is head + one row group per SELECTED entry + totals of the selected entries, every mode/quiet/clock",
             "total_line": "full: lha l ends with ` Total N files <sum of sizes> ...`, N = number of selected entries",
             "no_filter_selects_all": "full", "listing_shape": "full: head ++ rows ++ tail", "row_independent": "full", "totals_exact": "full (true sums below 2^32; mod 2^32 beyond)",
             "row_lines": "full", "timestamp_recent": "full", "timestamp_old": "full: exact six-month boundary", "selection_spec": "full: wildcard selection = GlobSpec"}
-TRUSTED = ["LhasaV.Model.ListOut.render IS the reference layout (columns, widths, footers transcribed from src/list.c; binary32 ratio arithmetic "
+TRUSTED = ["gen/ext_tool.c + gcc: os_type_to_string evaluated by compiling src/list.c", "LhasaV.Model.ListOut.render IS the reference layout (columns, widths, footers transcribed from src/list.c; binary32 ratio arithmetic "
            "and glibc %5.1f rounding modelled with exact integers; gmtime by civil-from-days); validated byte for byte against the real tool",
            "printf, localtime (TZ=UTC) and float hardware are modelled, not verified"]
 ASSUMPTIONS = ["TZ=UTC, C locale, TEST_NOW_TIME fixes the current time, archive mtime set by the test"]
